@@ -155,14 +155,16 @@ type c01Action struct {
 }
 
 type c01Scenario struct {
-	Name       string      `json:"name"`
-	Profile    string      `json:"profile"`
-	TrafficSec int         `json:"traffic_sec"`
-	Reject     bool        `json:"reject_preseed"`
-	AggFlags   []string    `json:"agg_flags,omitempty"`
-	SaveFirst  bool        `json:"save_seconds_immediately,omitempty"` // agent config: save every second to disk before the first send
-	Actions    []c01Action `json:"actions"`
-	Mandatory  []string    `json:"-"` // effectiveness classes that must have fired
+	Name       string   `json:"name"`
+	Profile    string   `json:"profile"`
+	TrafficSec int      `json:"traffic_sec"`
+	Reject     bool     `json:"reject_preseed"`
+	AggFlags   []string `json:"agg_flags,omitempty"`
+	SaveFirst  bool     `json:"save_seconds_immediately,omitempty"` // agent config: save every second to disk before the first send
+
+	LivenessSuccesses int         `json:"liveness_success,omitempty"` // agent config --liveness-success (default 3 of 5)
+	Actions           []c01Action `json:"actions"`
+	Mandatory         []string    `json:"-"` // effectiveness classes that must have fired
 }
 
 func c01Ms(rnd *rand.Rand, loSec, hiSec float64) int64 {
@@ -303,21 +305,26 @@ func c01BuildScenario(rnd *rand.Rand, profile string, idx int) *c01Scenario {
 		add(c01Ms(rnd, 2, 30), "ch500a", -1, 0, 1)
 		sc.Mandatory = []string{"failed-insert", "keep", "late-recent"}
 	case "q-full":
-		// single inserter per replica kept busy by a slow ClickHouse for most of the run, connections cut
-		// every ~2 s meanwhile: recent sends fail at once, their historic re-sends land in the still-recent
-		// bucket, which then meets the full conveyor — the aggregator answers a *historic* request with keep
+		// Deterministic "keep to a historic request" (aggregator goTicker, conveyor full).  Every replica has
+		// one inserter, kept busy from its first marker INSERT (≈ k+6 s) for 3×7 s by a slow ClickHouse, so every
+		// bucket whose short window closes meanwhile is answered with keep.  Two sources of historic requests
+		// that are still inside the short window (they are put into the recent bucket):
+		// (a) a graceful agent shutdown: after DisableNewSends every new second goes straight to the historic
+		//     conveyor (≈ i+2.3 s) while the agent waits for its recent senders;
+		// (b) second i (replica i%3) is sent at ≈ i+2.3…3.4 s; cutting the replica's connections at i+4.2 s fails
+		//     that recent send, the historic re-send (retried after 1 s) arrives before the tick i+6 s.
+		// The agent runs with --liveness-success=1 so that failed recent sends do not make it route around a replica.
 		sc.TrafficSec = 25
 		sc.AggFlags = []string{"--recent-inserters=1"}
-		add(c01Ms(rnd, 1, 2), "ch500a", -1, 0, 1)
-		for rep := 0; rep < 3; rep++ {
-			at := c01Ms(rnd, 2.5, 4)
-			add(at, "chdelay", rep, c01Ms(rnd, 6, 7), 3)
-			for d := int64(3000); d <= 17000; d += 2000 {
-				add(at+d+int64(rnd.IntN(900)), "cut", rep, 0, 0)
+		sc.LivenessSuccesses = 1
+		for k := 0; k < 3; k++ {
+			add(int64(300+rnd.IntN(400)), "chdelay", k, 7000, 3)
+			for i := k + 12; i <= k+18; i += 3 {
+				add(int64(i)*1000+4200+int64(rnd.IntN(200)), "cut", k, 0, 0)
 			}
 		}
-		add(c01Ms(rnd, 10, 16), "kill", rnd.IntN(3), c01Ms(rnd, 2, 4), 0)
-		sc.Mandatory = []string{"failed-insert", "cut", "kill", "keep", "conveyor-full", "historic-keep"}
+		add(c01Ms(rnd, 9.2, 10.2), "agent-restart", -1, 0, 0)
+		sc.Mandatory = []string{"cut", "keep", "conveyor-full", "historic-keep", "agent-restart"}
 	case "t-full", "r-full":
 		sc.TrafficSec = 42
 		sc.AggFlags = []string{"--recent-inserters=1"}
@@ -632,6 +639,9 @@ func (e *c01Env) newAgent() (*Agent, error) {
 	cfg.HistoricWindow = data_model.MaxHistoricWindow // 48 h: wider than the aggregators' 24 h (rejection scenario)
 	cfg.SaveSecondsImmediately = e.sc.SaveFirst
 	cfg.SampleBudget = 10 << 20 // SF = 1: far above the traffic
+	if e.sc.LivenessSuccesses > 0 {
+		cfg.LivenessResponsesWindowSuccesses = e.sc.LivenessSuccesses
+	}
 	agentDir := filepath.Join(e.dir, "agent")
 	if err := os.MkdirAll(agentDir, 0o777); err != nil {
 		return nil, err
